@@ -205,6 +205,12 @@ theorem c07_perm_tie (rs rs' : List NetRule) (h : rs.Perm rs') (w w' : NetRule)
   rw [hw, hw'] at this
   exact (c07_tie_iff w w').mpr (by simpa using this)
 
+/-! #### generated-fact obligation (go/ast over the current rules/network.go) -/
+
+/-- `IsHigherPriority` reads the same fields and calls the same methods on both operands (the D6
+    defect read `permittedClients`, `restrictedClients`, `denyAllowDomains` from the receiver only). -/
+theorem c07_fact_symmetric_reads : Facts.higherPriorityReadsF = Facts.higherPriorityReadsR := by decide
+
 /-! #### non-vacuity and the old shape (D6) -/
 
 /-- `||e^$script,image,media` (three content types) and `||e^$domain=e.org`. -/
